@@ -138,6 +138,9 @@ Definition K : nat := List.length OG.
 
 Record grammar_ok : Prop := {
   go_nodup : NoDup (map oname OG);
+  (* pest_vm lets a rule of the grammar shadow a hard-coded name (fix 76a77f3), the Spec resolves the hard-coded names
+     first: the two agree only when no rule bears such a name *)
+  go_names : forall r, In r OG -> is_builtin (oname r) = false;
   go_frag : forall r, In r OG -> in_fragment (oexpr_of r) = true;
   go_rok : forall r, In r OG -> rokP K (oexpr_of r);
   go_lits : forall r, In r OG -> lits_valid (oexpr_of r);
@@ -173,6 +176,12 @@ Proof.
     split; [left; reflexivity|now apply str_eqb_eq].
 Qed.
 
+Lemma builtin_not_rule n : (forall r, In r OG -> is_builtin (oname r) = false) -> is_builtin n = true -> has_orule OG n = false.
+Proof.
+  intros H B. unfold has_orule. destruct (find_orule OG n) as [r|] eqn:Ef; [|reflexivity].
+  destruct (find_orule_some OG n r Ef) as [Hin Hn]. specialize (H r Hin). congruence.
+Qed.
+
 Lemma index_of_find g n r : NoDup (map oname g) -> find_orule g n = Some r ->
   forall k, exists i, index_of (map oname g) n k = Some (k + i) /\ nth_error g i = Some r.
 Proof.
@@ -205,8 +214,8 @@ Qed.
 
 Lemma pv_call n : prog_valid (vm_call OG uranges n).
 Proof.
-  unfold vm_call, prim_range.
-  repeat match goal with |- prog_valid (if ?c then _ else _) => destruct c; [cbn; auto|] end.
+  unfold vm_call, prim_range. destruct (has_orule OG n); [exact I|].
+  repeat match goal with |- prog_valid (if str_eqb ?a ?b then _ else _) => destruct (str_eqb a b); [cbn; auto|] end.
   - cbn. repeat split; apply valid_ascii; repeat constructor.
   - destruct (uranges n); cbn; auto.
 Qed.
@@ -214,7 +223,7 @@ Qed.
 Lemma pv_skip : prog_valid (vm_skip OG uranges).
 Proof.
   unfold vm_skip. pose proof (pv_call (nm "WHITESPACE")). pose proof (pv_call (nm "COMMENT")).
-  destruct (has_orule OG _), (has_orule OG _); cbn; auto.
+  destruct (has_orule OG _), (has_orule OG _); cbn [prog_valid prim_valid]; auto.
 Qed.
 
 Lemma pv_expr e : lits_valid e -> prog_valid (vm_expr OG uranges e).
